@@ -231,7 +231,8 @@ def axioms_not_allowed(axioms):
             continue
         if a.startswith(PRIMITIVE_PREFIXES):
             continue
-        if (a, t) in PRIMITIVES:
+        # with Flocq's Core imported the kernel's `float` is printed qualified
+        if (a, t) in PRIMITIVES or (a, t.replace("PrimFloat.float", "float")) in PRIMITIVES:
             continue
         bad.append(f"{a} : {t}")
     return bad
